@@ -4,6 +4,7 @@ import (
 	"fmt"
 	"go/token"
 	"go/types"
+	"reflect"
 	"sort"
 	"strings"
 
@@ -748,6 +749,65 @@ func ruleConfigRMWNoWait(c *Ctx) {
 	}
 }
 
+// ruleOmittedOnlyWhenAlwaysZero: the persisted value is the JSON of the section
+// structs, and a reload starts from the defaults. A field tagged `omitempty`
+// therefore comes back as its *default* whenever its zero value was accepted —
+// harmless only for deprecated flags that are always zero when persisted: the
+// section's MigrateDeprecatedFlags assigns the zero value, or the field is the
+// deprecated half of a migration pair.
+func ruleOmittedOnlyWhenAlwaysZero(c *Ctx) {
+	P := c.P
+	rule := c.Prop + "/one-json-value"
+	n := 0
+	for _, sec := range []string{"ScheduleConfig", "ReplicationConfig", "PDServerConfig", "ReplicationModeConfig", "DRAutoSyncReplicationConfig"} {
+		named := P.named(cfgPkg, sec)
+		st, ok := named.Underlying().(*types.Struct)
+		if !ok {
+			continue
+		}
+		mig := P.methodOpt(cfgPkg, sec, "MigrateDeprecatedFlags")
+		pairs := P.methodOpt(cfgPkg, sec, "migrateConfigurationMap")
+		for i := 0; i < st.NumFields(); i++ {
+			tag := reflect.StructTag(st.Tag(i)).Get("json")
+			n++
+			f := st.Field(i)
+			if f.Exported() && !f.Embedded() {
+				name := strings.Split(tag, ",")[0]
+				c.Check(name != "-", rule, "persisted form of "+sec+"."+f.Name(), "every item of a served section is part of the persisted JSON value (not json:\"-\")", P.pos(f.Pos()), "the item is served and settable but never persisted")
+			}
+			if !strings.Contains(tag, "omitempty") {
+				continue
+			}
+			zeroed := false
+			if mig != nil {
+				for _, s := range storesToField(mig, f) {
+					if cv, isC := s.Val.(*ssa.Const); isC && (cv.Value == nil || cv.Value.ExactString() == "0" || cv.Value.ExactString() == "false" || cv.Value.ExactString() == `""`) {
+						zeroed = true
+					}
+				}
+			}
+			if !zeroed && pairs != nil {
+				// &c.F stored as element 0 of a [2]*bool
+				for _, b := range pairs.Blocks {
+					for _, ins := range b.Instrs {
+						s, ok := ins.(*ssa.Store)
+						if !ok || fieldOfAddr(s.Val) != f {
+							continue
+						}
+						if ia, ok := s.Addr.(*ssa.IndexAddr); ok && isConstInt(0)(ia.Index) {
+							zeroed = true
+						}
+					}
+				}
+			}
+			c.Check(zeroed, rule, "omitempty on "+sec+"."+f.Name(), "only a deprecated flag that is always zero when persisted may be omitted when zero (an accepted zero of any other item is reloaded as its default)", P.pos(f.Pos()), "not zeroed by MigrateDeprecatedFlags and not the deprecated half of a migration pair")
+		}
+	}
+	if n < 40 {
+		c.Undec(rule, "fields of the persisted section structs", "at least 40", "", fmt.Sprint(n))
+	}
+}
+
 func init() {
 	register("C18", "Dynamic configuration changes are validated, atomic and durable", func(c *Ctx) {
 		c.Group("C18/validated-first", "each setter validates its parameter before it changes the served options", func() { ruleValidatedBeforePublished(c) })
@@ -757,6 +817,6 @@ func init() {
 		c.Group("C18/reload-identity", "the reload-time migration of deprecated flags leaves values written by this version unchanged", func() { ruleReloadMigration(c) })
 		c.Group("C18/memo-after-outcome", "(shared with C17) the storage layer remembers nothing about a config write whose outcome is still open: a cached copy of the stored value is updated only after the write succeeded", func() { ruleStorageMemoAfterOutcome(c) })
 		c.Group("C18/rmw-no-wait", "a section that is read, edited and installed again is not held across a wait", func() { ruleConfigRMWNoWait(c) })
-		c.Group("C18/one-json-value", "one key, one JSON value containing every section; reload installs every section of an existing value", func() { ruleOneConfigValue(c) })
+		c.Group("C18/one-json-value", "one key, one JSON value containing every section; reload installs every section of an existing value", func() { ruleOneConfigValue(c); ruleOmittedOnlyWhenAlwaysZero(c) })
 	})
 }
